@@ -149,6 +149,9 @@ func runC10Loop(c *core.Ctx) {
 			s.Yield("harness.closer")
 			id := fmt.Sprintf("c%d", i)
 			rec("closecall", id, false)
+			if !withPre {
+				rec("closecall-plain", id, false)
+			}
 			if withPre {
 				loop.CloseWithPreStop(func() { rec("prestop", id, false) })
 			} else {
@@ -205,6 +208,34 @@ func c10Hist(h []c10Ev) string {
 }
 
 func c10CheckHistory(c *core.Ctx, h []c10Ev) {
+	// the pre-stop hook: whoever closes the loop first runs its hook - once, after the loop is marked closed and
+	// before any Close returns. (Which closer is first cannot be told from outside; when every closer brought a
+	// hook, exactly one hook ran.)
+	nCloseCalls, nPlain, nPre := 0, 0, 0
+	var preSeq, firstRet int64
+	for _, e := range h {
+		switch e.kind {
+		case "closecall":
+			nCloseCalls++
+		case "closecall-plain":
+			nPlain++
+		case "prestop":
+			nPre++
+			preSeq = e.seq
+		case "closereturn":
+			if firstRet == 0 {
+				firstRet = e.seq
+			}
+		}
+	}
+	if nPre > 1 {
+		c.Failf("C10/prestop-ran-more-than-once", "%d pre-stop hooks ran; history: %s", nPre, c10Hist(h))
+		return
+	}
+	if nCloseCalls > 0 && nPlain == 0 && firstRet != 0 && (nPre != 1 || preSeq > firstRet) {
+		c.Failf("C10/prestop-not-run", "every closer passed a pre-stop hook, %d of them ran before the first Close returned (the hook is what aborts a task blocked in a socket write); history: %s", nPre, c10Hist(h))
+		return
+	}
 	active := ""
 	started := map[string]int{}
 	ended := map[string]int{}
